@@ -327,6 +327,21 @@ class Struct(metaclass=MetaStruct):
                 else:
                     foffset = offset + field.offset
                 finfo = extra.get(field.index)
+                if (
+                    isinstance(value, cls)
+                    and field.ftype._size is None
+                    and not getattr(field.ftype, "_has_refs", False)
+                ):
+                    # a part without references takes the place and the space
+                    # it has in the source: it is copied as it is (rebuilt
+                    # from its value a string would get its minimal capacity,
+                    # which need not fit the space of an emptier one)
+                    _, soffset = field.get_offset(value)
+                    fsize = Int64._from_buffer(value._buffer, soffset)
+                    buffer.update_from_xbuffer(
+                        foffset, value._buffer, soffset, fsize
+                    )
+                    continue
                 field.ftype._to_buffer(buffer, foffset, fvalue, finfo)
 
     def _update(self, value):
